@@ -507,6 +507,77 @@ def order_programs(rng):
     return out
 
 
+# ------------------------------------------------------------------------------------------------ library natives: exactly once
+
+# documented as NOT short-circuiting (book/src/lang/functions.md:162: every function, unless its documentation says
+# otherwise): {k} is replaced by display(<distinct int>); every display must write exactly once, in textual order
+LIB_STRICT = [
+    ("assert-fails", "assert({0} == {1})", [1, 2]), ("assert-holds", "assert({0} == {1})", [4, 4]),
+    ("assert-fails-lt", "assert(lt({0}, {1}))", [9, 2]), ("assert-fails-method", "assert({0}.eq({1}))", [5, 6]),
+    ("assert-fails-nested", "assert(({0} + {1}) == {2})", [1, 2, 4]), ("assert-fails-user", "assert(same({0}, {1}))", [1, 2]),
+    ("max", "max({0}, {1})", [3, 5]), ("min", "min({0}, {1})", [3, 5]), ("pow", "{0} ** {1}", [2, 3]), ("div", "{0} / {1}", [7, 2]),
+    ("bit_and", "{0} & {1}", [6, 3]), ("bit_or", "{0} | {1}", [6, 3]), ("bit_xor", "{0} ^ {1}", [6, 3]),
+    ("abs", "abs({0})", [3]), ("gcd", "gcd({0}, {1})", [12, 18]), ("div_floor", "div_floor({0}, {1})", [7, 2]),
+    ("cmp", "cmp({0}, {1})", [1, 2]), ("to_str", "to_str({0})", [8]), ("array", "[{0}, {1}, {2}]", [1, 2, 3]),
+    ("tuple", "({0}, {1}, {2})", [1, 2, 3]), ("some", "some({0})", [1]), ("seq-get", "[{0}, {1}].get({2})", [10, 20, 1]),
+    ("seq-get-oob", "[{0}, {1}].get({2})", [10, 20, 5]), ("seq-index", "[{0}, {1}][{2}]", [10, 20, 0]),
+    ("push", "[{0}].push({1})", [1, 2]), ("range", "range({0}, {1}).to_array()", [1, 3]), ("contains", "[{0}, {1}].contains({2})", [1, 2, 2]),
+    ("str-add", "{0}.to_str() + {1}.to_str()", [1, 2]), ("is_error", "is_error({0} / {1})", [1, 0]),
+    ("error-arg", "is_error(max({0}, {1} % {2}))", [1, 2, 0]),
+]
+# documented as short-circuiting: (template, values, the placeholders that must be evaluated)
+LIB_SHORT = [
+    ("then-true", "({0} == {1}).then({2})", [1, 1, 7], [0, 1, 2]), ("then-false", "({0} == {1}).then({2})", [1, 2, 7], [0, 1]),
+    ("opt-or-some", "some({0}).or(some({1}))", [1, 2], [0]), ("opt-or-none", "nn.or(some({0}))", [3], [0]),
+    ("or-default-some", "some({0}).or({1})", [1, 2], [0]), ("or-default-none", "nn.or({0})", [5], [0]),
+    ("opt-and-none", "nn.and(some({0}))", [5], []), ("opt-and-some", "some({0}).and(some({1}))", [1, 2], [0, 1]),
+    ("if_error-ok", "if_error({0}, {1})", [1, 2], [0]), ("if_error-err", "if_error({0} % {1}, {2})", [1, 0, 9], [0, 1, 2]),
+]
+
+
+def run_library_order(chk):
+    prelude = "fn same(a: int, b: int)->bool{a == b}\nlet nn: Optional<int> = none();\n"
+    reqs, meta = [], []
+    base = 100
+    for tag, tmpl, vals in LIB_STRICT:
+        shown = [base + 10 * len(meta) + i for i in range(len(vals))]
+        # the displayed number identifies the position; the value is computed from it
+        args = [f"(display({n}) - {n - val})" for n, val in zip(shown, vals)]
+        src = prelude + "let r = " + tmpl.format(*args) + ";\nlet e = is_error(r);\n"
+        reqs.append({"op": "run", "src": src, "get": ["e"]})
+        meta.append((tag, src, [str(n) for n in shown], "strict"))
+    for tag, tmpl, vals, evaluated in LIB_SHORT:
+        shown = [base + 10 * len(meta) + i for i in range(len(vals))]
+        args = [f"(display({n}) - {n - val})" for n, val in zip(shown, vals)]
+        src = prelude + "let r = " + tmpl.format(*args) + ";\nlet e = is_error(r);\n"
+        reqs.append({"op": "run", "src": src, "get": ["e"]})
+        meta.append((tag, src, [str(shown[i]) for i in evaluated], "short"))
+    resp = run_harness(reqs)
+    for (tag, src, want, kind), r in zip(meta, resp):
+        chk.evaluations += 1
+        chk.count("libcall:" + kind)
+        ci = cg.canon_impl(r, ["e"])
+        if ci["outcome"] != "ok":
+            chk.violation(f"order:lib:{tag}:{ci['outcome'].split(' ')[0]}", f"library call program did not run: {ci['outcome'][:300]} on {src!r}",
+                          {"src": src, "get": ["e"], "impl": ci, "expected": {"outcome": "ok", "out": want}})
+            continue
+        got = ci["out"]
+        chk.nontrivial.add(src)
+        if got != want:
+            k = "evaluated-twice" if any(got.count(x) > 1 for x in got) else ("skipped-argument" if set(got) < set(want) else
+                ("extra-argument" if set(got) > set(want) else "wrong-order"))
+            chk.violation(f"order:lib:{tag}:{k}", f"arguments of a {'non-' if kind == 'strict' else ''}short-circuiting library function are not evaluated "
+                          f"{'exactly once, left to right' if kind == 'strict' else 'as documented'}: displays written {got}, expected {want} on {src!r}",
+                          {"src": src, "get": ["e"], "impl": ci, "expected": {"outcome": "ok", "out": want, "vals": ci.get("vals")}})
+    # the grammar's generic binding `name<types>` (documented: lang/dyn_functions.md "Dynamic specialization") takes
+    # `a < b > ..`; recorded for the evidence, no verdict (see design/C02.md)
+    texts = ["a < b > c", "a < b > (c)", "f(a < b, c > d)", "a < (b) > c", "a < b + 1 > c", "(a) < b > c"]
+    rs = run_harness([{"op": "parse", "srcs": texts}])[0]["rs"]
+    for t, r in zip(texts, rs):
+        chk.count("generic-binding:" + ("tree" if r.startswith("(") else r.split(" ")[0]))
+    chk.coverage["generic_binding_texts"] = dict(zip(texts, rs))
+
+
 def run(chk):
     rng = chk.rng
     quick = chk.tier == "quick"
@@ -549,6 +620,9 @@ def run(chk):
     res = three_way(chk, cases, "c02", nontrivial=lambda c, ev: True)
     for c, ci, cm, co, ev in res[:1]:
         chk.sample({"program": c.src, "out": ci.get("out")})
+
+    # (d) library functions outside the core model: exactly once / documented short circuits (implementation vs documentation)
+    run_library_order(chk)
     return chk.finish(rule="(a) operator soups: generated expression texts (all 17 binary and 3 unary operators, parentheses, arrays, tuples, method / call / "
                            "member / index accessors, random spacing) + every operator pair and every triple over one representative per level, parser tree vs model "
                            "vs documented table; mutated (ill-formed) texts parser vs model; (b) generated core programs and programs with user overloads of "
